@@ -2,7 +2,7 @@ import MdIt.Emphasis
 import MdIt.Drv.Core
 import MdIt.Drv.Token
 /-! Driver: `inline <maxNesting> <rules> <fragjoin> <textjoin> <src>` with rules a string over
-`t` (text) `n` (newline) `e` (escape) `b` (backticks) `m` (emphasis, with balance_pairs and its post-processing), in chain order -/
+`t` (text) `n` (newline) `e` (escape) `b` (backticks) `s` (strikethrough) `m` (emphasis) — the last two with balance_pairs and their post-processing, in chain order -/
 namespace MdIt.Drv
 open MdIt.Proto
 
@@ -11,6 +11,7 @@ def ruleOfChar : Char → Option IRule
   | 'n' => some ruleNewline
   | 'e' => some ruleEscape
   | 'b' => some ruleBackticks
+  | 's' => some (ruleStrike drvCls)
   | 'm' => some (ruleEmphasis drvCls)
   | _ => none
 
@@ -18,7 +19,8 @@ def inlineLine (toks : List String) : String :=
   match toks with
   | [mn, rs, fj, tj, src] =>
     let rules := rs.toList.filterMap ruleOfChar
-    let post := if rs.toList.contains 'm' then [balancePairs, emphasisPost] else []
+    let post := (if rs.toList.contains 'm' || rs.toList.contains 's' then [balancePairs] else [])
+      ++ (if rs.toList.contains 's' then [strikePost] else []) ++ (if rs.toList.contains 'm' then [emphasisPost] else [])
     match inlineParse rules post (decBool fj) mn.toInt! (decChars src) with
     | .error e => "e:" ++ e.tag
     | .ok ts =>
